@@ -12,30 +12,35 @@ VERIF = kernel.VERIF
 PROPS = {
     'C02': {
         'level': 'exploration',
+        'required_probes': ['converged-at-first-permitted-pass', 'converged-at-max_iter', 'moved-exactly-tol', 'some-but-not-all-within-tol', 'max_iter=0', 'negative-t', 'offset-used', 'rejected:IndexError', 'rejected:ValueError', 'empty-check-list', 'sibling-instance-in-history', 'history:copy'],
         'strata': [('scripted-finite', 'solver', 0.8), ('parser-built', 'solver_parser', 0.2)],
         'quick': 40000,
         'thorough': 600000,
     },
     'C06': {
         'level': 'fault_enumeration',
+        'required_probes': ['healed', 'preexisting-nonfinite-rejected', 'pass-raised', 'pre-hook-raised', 'post-hook-raised', 'replaced', 'nonfinite-on-last-pass', 'pass-starting-from-nonfinite-not-judged', 'warning-statement:strict', 'warning-statement:lenient'],
         'strata': [('scripted-faults', 'solver_faults', 0.8), ('parser-natural-faults', 'solver_parser', 0.2)],
         'quick': 40000,
         'thorough': 600000,
     },
     'C04': {
         'level': 'exploration',
+        'required_probes': ['read-at-maximum-lag', 'read-at-maximum-lead', 'first-period-of-default-range', 'last-period-of-default-range', 'negative-spelling', 'rejected:min_iter>max_iter', 'rejected:offset-out-of-span', 'history:reindex'],
         'strata': [('parser-built-recorded', 'frame', 1.0)],
         'quick': 20000,
         'thorough': 300000,
     },
     'C05': {
         'level': 'fault_enumeration',
+        'required_probes': ['empty-span', 'start==end', 'start>end', 'unknown-label', 'multi-position-label', 'fault-at:first', 'fault-at:middle', 'fault-at:last', 'interrupt:before-first-pass', 'interrupt:after-some-seam-calls', 'history:reindex-before-solve', 'repeated-label-inside-range'],
         'strata': [('twin-solve-vs-loops', 'multi', 0.9), ('linker-solve-entry', 'linker', 0.1)],
         'quick': 30000,
         'thorough': 500000,
     },
     'C08': {
         'level': 'exploration',
+        'required_probes': ['submodels:0', 'submodels:1', 'proper-subset', 'permuted-selection', 'unknown-id', 'linker-with-own-check-variables', 'offset-used', 'offset-out-of-span', 'linker-of-one-twin', 'history:copy'],
         'strata': [('scripted-linker', 'linker', 1.0)],
         'quick': 30000,
         'thorough': 300000,
@@ -66,12 +71,14 @@ PROPS = {
     },
     'C17': {
         'level': 'exploration',
+        'required_probes': ['trace-of-solved-period', 'tracing-off-call-on-traced-party', 'reset=True', 'add_variable-after-trace', 'tracer-combined-with-alias-mixin'],
         'strata': [('triplets', 'tracer', 1.0)],
         'quick': 24000,
         'thorough': 400000,
     },
     'C18': {
         'level': 'exploration',
+        'required_probes': ['topology:self-map', 'topology:chain-3', 'topology:many-to-one', 'preferred:ambiguous', 'constructor-keyword-through-alias', 'to_dataframe:preferred-name-applies'],
         'strata': [('aliased-vs-canonical-twin', 'alias', 1.0)],
         'quick': 16000,
         'thorough': 300000,
@@ -192,6 +199,7 @@ def write_evidence_file(prop, tier, base_seed, cfg, agg, new, known_hit, replays
             'known_findings_hit': [v['signature'] for v in known_hit],
             'new_violation_signatures': [v['signature'] for v in new],
             'replay_files': replays,
+            'required_probes_at_zero': [p_ for p_ in cfg.get('required_probes', []) if agg['probes'].get(p_, 0) == 0],
             'components': COMPONENTS,
             'exhaustive': False,
         },
